@@ -458,4 +458,51 @@ example : ∀ it ∈ exItems, ValidItem it := by
 
 example : exItems.filterMap (good exCfg) = [7] := by decide
 
+/-! ## Several connections alive in one process -/
+
+/-- **Instances are independent.**  In any history in which reads and version changes of several
+live connections alternate in any order (with equal ids, equal lines, different versions …), what
+connection `i` delivers, offers, writes back, and the state it ends in, are exactly those of its own
+events played alone. -/
+theorem c05_instances_independent (cfg : Cfg μ) (evs : List (Nat × Ev)) :
+    ∀ (s : Nat → St) (i : Nat),
+      ofConn i (runTagged cfg s evs).2 = (run cfg (s i) (ofConn i evs)).2
+      ∧ (runTagged cfg s evs).1 i = (run cfg (s i) (ofConn i evs)).1 := by
+  induction evs with
+  | nil => intro s i; simp [runTagged, ofConn, run]
+  | cons e es ih =>
+    intro s i
+    obtain ⟨j, ev⟩ := e
+    have h := ih (update s j (step cfg (s j) ev).1) i
+    by_cases hji : j = i
+    · subst hji
+      have hu : update s j (step cfg (s j) ev).1 j = (step cfg (s j) ev).1 := by simp [update]
+      rw [hu] at h
+      simp only [runTagged, ofConn, List.filterMap_cons, List.filterMap_append, if_true, run] at h ⊢
+      refine ⟨?_, h.2⟩
+      rw [h.1]
+      congr 1
+      induction (step cfg (s j) ev).2 with
+      | nil => rfl
+      | cons x xs ihx => simp [List.filterMap_cons, ihx]
+    · have hij : ¬ i = j := fun e => hji e.symm
+      have hu : update s j (step cfg (s j) ev).1 i = s i := by simp [update, hij]
+      rw [hu] at h
+      simp only [runTagged, ofConn, List.filterMap_cons, List.filterMap_append, hji, if_false] at h ⊢
+      refine ⟨?_, h.2⟩
+      rw [h.1]
+      have : List.filterMap (fun p : Nat × Out μ => if p.1 = i then some p.2 else none)
+          ((step cfg (s j) ev).2.map (fun o => (j, o))) = [] := by
+        induction (step cfg (s j) ev).2 with
+        | nil => rfl
+        | cons x xs ihx => simp [List.filterMap_cons, hji, ihx]
+      rw [this]; rfl
+
+example : ofConn 1 (runTagged exCfg (fun _ => init)
+    [(0, .setVersion (some "2025-06-18".toList)), (1, .chunk [91, 93]), (0, .chunk [91, 93, 10]), (1, .chunk [10])]).2 = []
+    ∧ ofConn 0 (runTagged exCfg (fun _ => init)
+    [(0, .setVersion (some "2025-06-18".toList)), (1, .chunk [91, 93]), (0, .chunk [91, 93, 10]), (1, .chunk [10])]).2 = [.reject] := by
+  decide
+
+
 end Verif.Props.C05
